@@ -672,6 +672,8 @@ func rulesC12(e *Engine, r *Report) {
 	r.Rule("R12.5", "list surgery: unlink/addAfter/addBefore perform exactly their four pointer updates under the right nil guards (the old neighbour is read before it is overwritten), insert = unlink then add, the setters/getters touch the like-named pointer, removeFile keeps head and index consistent (the group list and the file chain share these helpers)")
 	e.checkLinkHelpers(r, "R12.5")
 	r.Rule("R12.4", "lock discipline as R10.1 (the group list is only touched under q.mux)")
+	// ---------------------------------------------------------------- R12.6
+	e.shareRule(r, "C19", "R19.5", "R12.6", "a group gets its own tag's priority: the tagger main hands to the queue answers a group named after a tag with that tag")
 }
 
 func gphiBlock(p *ssa.Phi) *ssa.BasicBlock {
